@@ -23,7 +23,7 @@ ASSUMPTIONS = ["180-degree reversals (corner angle > 179.95 deg) are excluded as
 CONFIGS = ['scipy']
 BUDGET = {'quick': 6000, 'thorough': 100000}
 REQUIRED = ['closing_joint_already_smooth', 'joint:LL', 'joint:LC', 'joint:CL', 'joint:CC', 'closed', 'open', 'already_smooth_joint', 'single_segment', 'smoothed',
-            'cubic_coincident_end_control', 'closing_joint_smoothed']
+            'cubic_coincident_end_control', 'closing_joint_smoothed', 'loop_cubic']
 CASE_TIMEOUT = 60
 TIME_LIMIT = {'quick': 250, 'thorough': 3300}
 
@@ -46,7 +46,7 @@ def path_case(draw):
             heading += math.radians(turn) * draw(st.sampled_from([1, -1]))
         L = mj * draw(st.one_of(st.sampled_from([0.05, 0.5, 1.0, 5.0, 50.0]), gen.floats_in(0.05, 50.0)))
         d_in = complex(math.cos(heading), math.sin(heading))
-        kind = draw(st.sampled_from(['L', 'L', 'C', 'C', 'Cs', 'Ce']))
+        kind = draw(st.sampled_from(['L', 'L', 'L', 'C', 'C', 'C', 'Cs', 'Cs', 'Ce', 'Ce', 'Cloop']))
         if kind == 'L':
             end = cur + L * d_in
             specs.append(['L', gen.P(cur), gen.P(end)])
@@ -60,6 +60,10 @@ def path_case(draw):
             b = L * draw(gen.floats_in(0.15, 0.5))
             c1 = cur + a * d_in
             c2 = end - b * d_out
+            if kind == 'Cloop':
+                # a loop: the cubic returns to its own start point (chord 0, positive length)
+                end = cur
+                c2 = end - b * d_out
             if kind == 'Cs':
                 c1 = cur          # tangent at the start is then the direction to control2
             if kind == 'Ce':
@@ -147,6 +151,8 @@ def check(case, ctx):
     ctx.count('closed' if closed else 'open')
     if any(s[0] == 'C' and (s[1] == s[2] or s[3] == s[4]) for s in specs):
         ctx.count('cubic_coincident_end_control')
+    if any(s[0] == 'C' and s[1] == s[4] for s in specs):
+        ctx.count('loop_cubic')
     size = gen.spec_size(specs)
     with np.errstate(invalid='raise'):
         out = ctx.lib('smoothed_path', smoothed_path, path, maxjointsize=mj, tightness=tight)
@@ -214,6 +220,6 @@ def check(case, ctx):
         pt = specs[j][1]
         hits = [k for k in range(1, m) if out_specs[k][1] == pt]
         ctx.check(len(hits) >= 1, 'smooth_joint_moved', 'the smooth input joint at %r is not a joint of the output' % (pt,))
-        k = hits[0]
-        ctx.check(abs(tans_out[k][0] - tans_in[j][0]) <= 1e-6 and abs(tans_out[k - 1][1] - tans_in[j - 1][1]) <= 1e-6, 'smooth_joint_tangent_changed',
+        # (a loop segment makes two joints share one point: any output joint at that point with the input's tangents will do)
+        ctx.check(any(abs(tans_out[k][0] - tans_in[j][0]) <= 1e-6 and abs(tans_out[k - 1][1] - tans_in[j - 1][1]) <= 1e-6 for k in hits), 'smooth_joint_tangent_changed',
                   'tangent at the preserved smooth joint %r changed' % (pt,))
